@@ -168,7 +168,7 @@ theorem applyCmd_frame {c : Config} {s : NodeState} {now : Nat} {e : Entry} {s' 
     · cases h
       exact ⟨⟨rfl, rfl, rfl, rfl, rfl, rfl, rfl, rfl, rfl, rfl, rfl, rfl, rfl, Nat.le_refl _⟩, rfl⟩
   · cases h
-    exact changeCluster_frame s now _ _
+    exact ⟨ApplyFrame.refl s, rfl⟩
   · cases h
     exact ⟨⟨rfl, rfl, rfl, rfl, rfl, rfl, rfl, rfl, rfl, rfl, rfl, rfl, rfl, Nat.le_refl _⟩, rfl⟩
 
